@@ -30,62 +30,137 @@ def bool_tag(p):
     return ((p * 7 + 3) % 5) < 2
 
 
-def tag_array(kind, base, full):
+def tags_int(kind, base, shape, item, view=False):
+    """identifier tags as an int64 array over shape+item (bool kind: the tag's fixed bit); `view` = the first row
+    repeated along the first leading axis (what a broadcast produces)"""
+    full = list(shape) + list(item)
     n = prod(full)
     if kind == 'bool':
-        return np.array([bool_tag(base + p) for p in range(n)], dtype=bool).reshape(full)
-    return (np.arange(n, dtype='int64') + base).reshape(full).astype('float64' if kind == 'float' else 'int64')
-
-
-def wire_vals(kind, base, full):
-    n = prod(full)
-    if kind == 'bool':
-        return [int(bool_tag(base + p)) for p in range(n)]
-    return [base + p for p in range(n)]
-
-
-def build0(cls, kind, shape, numer, denom, mask, base, view=False):
-    full = list(shape) + list(numer) + list(denom)
-    vals = tag_array(kind, base, full)
+        V = np.array([int(bool_tag(base + p)) for p in range(n)], dtype='int64').reshape(full)
+    else:
+        V = (np.arange(n, dtype='int64') + base).reshape(full)
     if view and len(shape) >= 1 and shape[0] > 1:
-        # values that are a stride-0 broadcast view along the first axis (as insert_deriv produces)
-        vals = np.broadcast_to(vals[:1], tuple(full))
+        V = np.broadcast_to(V[:1], tuple(full)).copy()
+    return V
+
+
+def typed(V, kind):
+    return V.astype({'bool': bool, 'float': 'float64', 'int': 'int64'}[kind])
+
+
+# ------------------------------------------------------------------------------------------ operand provenance
+# 'layout' of an object description says HOW the arrays handed to polymath came about; the logical content (and the
+# request line for the model) never depends on it:
+#   None / {'kind': 'C'}   fresh C-contiguous arrays
+#   {'kind': 'F'}          np.asfortranarray copies
+#   {'kind': 'T'}          transposed views of C-contiguous bases (Fortran-ordered, not owning their data)
+#   {'kind': 'step'} / {'kind': 'step0'}   every second element of a wider base along the last / first axis
+#   {'kind': 'hist', 'op': 'swap_axes'|'move_axis'|'roll_axis'|'broadcast_to', 'args': [...]}
+#                          the object is the RESULT of that polymath operation on a C-contiguous pre-image
+def lay(arr, layout):
+    kind = (layout or {}).get('kind', 'C')
+    if not isinstance(arr, np.ndarray) or arr.ndim == 0 or kind in ('C', 'hist'):
+        return arr
+    if kind == 'F':
+        return np.asfortranarray(arr)
+    if kind == 'T':
+        return np.ascontiguousarray(arr.transpose()).transpose()
+    if kind in ('step', 'step0'):
+        ax = arr.ndim - 1 if kind == 'step' else 0
+        wide = list(arr.shape); wide[ax] = 2 * wide[ax]
+        base = np.zeros(wide, dtype=arr.dtype)
+        idx = [slice(None)] * arr.ndim; idx[ax] = slice(None, None, 2)
+        base[tuple(idx)] = arr
+        return base[tuple(idx)]
+    raise KeyError(kind)
+
+
+def make(cls, vals, m, shape, numer, denom):
     c = CLS[cls]
-    m = mk_mask(mask, shape)
     if c is Qube:
         return Qube(vals, m, nrank=len(numer), drank=len(denom))
-    if not shape and not numer and not denom:
+    if not shape and not numer and not denom and isinstance(vals, np.ndarray):
         vals = vals[()]
     return c(vals, m, drank=len(denom))
 
 
-def build(o):
-    q = build0(o['cls'], o['kind'], o['shape'], o['numer'], o['denom'], o['mask'], o.get('base', 0))
+def parts(o):
+    """the intended arrays: (vals, mask, [(key, denom, dvals, dmask)])"""
+    shape = list(o['shape'])
+    vals = typed(tags_int(o['kind'], o.get('base', 0), shape, list(o['numer']) + list(o['denom']), o.get('bview', False)),
+                 o['kind'])
+    ds = []
     for d in o.get('derivs', []):
-        dq = build0(o['cls'] if o['cls'] != 'Boolean' else 'Scalar', 'float', o['shape'], o['numer'], d['denom'],
-                    d['mask'], d['base'], d.get('view', False))
-        q.insert_deriv(d['key'], dq)
+        dv = typed(tags_int('float', d['base'], shape, list(o['numer']) + list(d['denom']), d.get('view', False)), 'float')
+        ds.append((d['key'], list(d['denom']), dv, mk_mask(d['mask'], shape), d.get('view', False)))
+    return vals, mk_mask(o['mask'], shape), ds
+
+
+def assemble(o, vals, m, ds, shape, layout=None, views=True):
+    def vw(x, isview):
+        # a stride-0 broadcast view along the first axis, as insert_deriv / broadcast_to produce
+        if views and isview and len(shape) >= 1 and shape[0] > 1:
+            return np.broadcast_to(x[:1], x.shape)
+        return lay(x, layout)
+    def lm(x):
+        return lay(x, layout) if isinstance(x, np.ndarray) and x.flags.writeable else x
+    q = make(o['cls'], vw(vals, o.get('bview', False)), lm(m), shape, o['numer'], o['denom'])
+    dcls = o['cls'] if o['cls'] != 'Boolean' else 'Scalar'
+    for key, dk, dv, dm, isview in ds:
+        q.insert_deriv(key, make(dcls, vw(dv, isview), lm(dm), shape, o['numer'], dk))
     return q
+
+
+def build_plain(o, layout=None):
+    vals, m, ds = parts(o)
+    return assemble(o, vals, m, ds, list(o['shape']), layout)
+
+
+def build(o):
+    layout = o.get('layout')
+    if not layout or layout.get('kind') != 'hist':
+        return build_plain(o, layout)
+    # the object is the result of a previous shaping operation applied to a C-contiguous pre-image
+    try:
+        shape = list(o['shape'])
+        L = len(shape)
+        vals, m, ds = parts(o)
+        op, a = layout['op'], layout['args']
+        if op == 'swap_axes':
+            inv = lambda X: np.swapaxes(X, a[0], a[1])
+            fwd = lambda q: q.swap_axes(a[0], a[1])
+        elif op == 'move_axis':
+            inv = lambda X: np.moveaxis(X, a[1], a[0])
+            fwd = lambda q: q.move_axis(a[0], a[1])
+        elif op == 'roll_axis':
+            inv = lambda X: np.moveaxis(X, 0, a[0])
+            fwd = lambda q: q.roll_axis(a[0], 0)
+        elif op == 'broadcast_to':
+            inv = lambda X: X[:1]
+            fwd = lambda q: q.broadcast_to(tuple(shape))
+        else:
+            raise KeyError(op)
+        pre = lambda X: np.ascontiguousarray(inv(X)) if isinstance(X, np.ndarray) and X.ndim >= L and L else X
+        pshape = list(pre(np.zeros(shape)).shape)
+        q0 = assemble(o, pre(vals), pre(m), [(k, dk, pre(dv), pre(dm), v) for k, dk, dv, dm, v in ds], pshape, views=False)
+        q = fwd(q0)
+        if observe(q) == observe(build_plain(o)):
+            return q
+    except Exception:
+        pass
+    return build_plain(o)        # the history itself went wrong (judged by its own cases): plain operand
 
 
 # ---------------------------------------------------------------------------------- tagged reference arrays
 def ref_arrays(o):
-    """(V, M, [(key, denom, V_k, M_k)]) as plain integer / bool NumPy arrays (view derivs expanded)"""
+    """(V, M, [(key, denom, V_k, M_k)]) as plain integer / bool NumPy arrays (views expanded)"""
     shape = list(o['shape'])
-    def one(kind, base, numer, denom, mask, view):
-        full = shape + list(numer) + list(denom)
-        if kind == 'bool':
-            V = np.array(wire_vals(kind, base, full), dtype='int64').reshape(full)
-        else:
-            V = (np.arange(prod(full), dtype='int64') + base).reshape(full)
-        if view and len(shape) >= 1 and shape[0] > 1:
-            V = np.broadcast_to(V[:1], tuple(full)).copy()
-        M = np.array(mask_bits(mask, shape), dtype=bool).reshape(shape)
-        return V, M
-    V, M = one(o['kind'], o.get('base', 0), o['numer'], o['denom'], o['mask'], False)
+    M = np.array(mask_bits(o['mask'], shape), dtype=bool).reshape(shape)
+    V = tags_int(o['kind'], o.get('base', 0), shape, list(o['numer']) + list(o['denom']), o.get('bview', False))
     ds = []
     for d in o.get('derivs', []):
-        Vk, Mk = one('float', d['base'], o['numer'], d['denom'], d['mask'], d.get('view', False))
+        Vk = tags_int('float', d['base'], shape, list(o['numer']) + list(d['denom']), d.get('view', False))
+        Mk = np.array(mask_bits(d['mask'], shape), dtype=bool).reshape(shape)
         ds.append((d['key'], list(d['denom']), Vk, Mk))
     return V, M, ds
 
@@ -137,14 +212,10 @@ def observe(q):
 
 # ---------------------------------------------------------------------------------- wire form for the model
 def obj_sx(o):
+    """wire form: logical content only (provenance / memory layout is invisible to the model)"""
     shape = list(o['shape'])
-    full = shape + list(o['numer']) + list(o['denom'])
-    ds = []
-    for d in o.get('derivs', []):
-        fk = shape + list(o['numer']) + list(d['denom'])
-        Vk = (np.arange(prod(fk), dtype='int64') + d['base']).reshape(fk)
-        if d.get('view') and len(shape) >= 1 and shape[0] > 1:
-            Vk = np.broadcast_to(Vk[:1], tuple(fk))
-        ds.append([d['key'], list(d['denom']), [int(x) for x in Vk.ravel()], mask_sx(d['mask'], shape)])
-    return [o['cls'], shape, list(o['numer']), list(o['denom']), wire_vals(o['kind'], o.get('base', 0), full),
-            mask_sx(o['mask'], shape), ds]
+    V, M, ds = ref_arrays(o)
+    out = []
+    for (key, dk, Vk, Mk), d in zip(ds, o.get('derivs', [])):
+        out.append([key, list(dk), [int(x) for x in Vk.ravel()], mask_sx(d['mask'], shape)])
+    return [o['cls'], shape, list(o['numer']), list(o['denom']), [int(x) for x in V.ravel()], mask_sx(o['mask'], shape), out]
